@@ -779,7 +779,7 @@ def run_c19_ranges_e2e(res, tier, seed):
             os.makedirs(root + "/src")
             open(root + "/gleam.toml", "w").write('name = "p"\n')
             text = ("pub type Shape {\n" + f"  Circle // {noise(rng.randrange(1, 12))}\n" + "Square\n" + f"  Dot // {noise(rng.randrange(1, 30))}\n}}\n"
-                    + f"// {noise(rng.randrange(1, 40))}\n" + "pub fn one() {\n" + f"  \"{noise(rng.randrange(1, 9))}\"\n" + "one()\n" + f"  Circle // {noise(5)}\n}}\n"
+                    + f"// {noise(rng.randrange(1, 40))}\n" + "pub fn one() {\n" + f"  \"{noise(rng.randrange(1, 9))}\"\n" + "one()\n" + f"  Circle // {noise(5)}\n" + f"  one(Circle(\"{noise(rng.randrange(1, 4))}\"), one)\n}}\n"
                     + f"pub fn area(s) {{ // {noise(rng.randrange(1, 20))}\n" + "  case s {\n" + f"    Circle -> one() // {noise(3)}\nSquare -> one()\n    Dot -> 2\n  }}\n}}\n")
             open(root + "/src/m.gleam", "w").write(text)
             uri = f"file://{root}/src/m.gleam"
@@ -822,6 +822,50 @@ def run_c19_ranges_e2e(res, tier, seed):
                         res.add_violation("C19/range-request-over-lsp", f"semanticTokens/range {l1}:{c1}-{l2}:{c2} ({what}) decodes to {got if got is None else got[:6]}; the tokens of the full answer on those lines are {want[:6]}",
                                           {"text": text, "range": [l1, c1, l2, c2], "answer": rr if rr is None or "error" in rr else got, "expected": want})
                         break
+                # the same document after it was TYPED INTO: single-character ASCII insertions (and some deletions) on lines that carry
+                # wide characters behind the caret; the stream of the edited session must be the stream of a fresh session on the final text
+                lines = text.split("\n")
+                cur = text
+                ver = 1
+                cands = [i for i, l in enumerate(lines) if any(ord(ch) > 127 for ch in l)]
+                typed_line = rng.choice([i for i in cands if "one(Circle(" in lines[i]] or cands)
+                for _ in range(rng.randrange(4, 14)):
+                    # mostly one line, the way a word is typed
+                    li = typed_line if rng.random() < 0.8 else rng.choice(cands)
+                    l = lines[li]
+                    firstwide = next(i for i, ch in enumerate(l) if ord(ch) > 127)
+                    col = rng.randrange(0, firstwide + 1)          # ASCII before it: UTF-16 column == character index
+                    if rng.random() < 0.8 or col == 0:
+                        ins = rng.choice(["x", " ", "q", "_", "1"])
+                        chg = {"range": {"start": {"line": li, "character": col}, "end": {"line": li, "character": col}}, "text": ins}
+                        lines[li] = l[:col] + ins + l[col:]
+                    else:
+                        chg = {"range": {"start": {"line": li, "character": col - 1}, "end": {"line": li, "character": col}}, "text": ""}
+                        lines[li] = l[:col - 1] + l[col:]
+                    ver += 1
+                    c.notify("textDocument/didChange", {"textDocument": {"uri": uri, "version": ver}, "contentChanges": [chg]})
+                cur = "\n".join(lines)
+                r2 = c.request("textDocument/semanticTokens/full", {"textDocument": {"uri": uri}}, timeout=30)
+                l1 = rng.randrange(0, nlines); l2 = rng.randrange(l1, nlines)
+                rq = {"textDocument": {"uri": uri}, "range": {"start": {"line": l1, "character": 0}, "end": {"line": l2, "character": 100000}}}
+                r3 = c.request("textDocument/semanticTokens/range", rq, timeout=30)
+                c2 = lsp.Lsp(root)
+                try:
+                    if c2.initialize() is not None:
+                        c2.notify("textDocument/didOpen", {"textDocument": {"uri": uri, "languageId": "gleam", "version": 1, "text": cur}})
+                        f2 = c2.request("textDocument/semanticTokens/full", {"textDocument": {"uri": uri}}, timeout=30)
+                        f3 = c2.request("textDocument/semanticTokens/range", rq, timeout=30)
+                        res.cov["evaluations"] += 2
+                        for what, a, b in (("full", r2, f2), ("range", r3, f3)):
+                            da = ((a or {}).get("result") or {}).get("data")
+                            db = ((b or {}).get("result") or {}).get("data")
+                            if da != db:
+                                res.add_violation("C19/stream-after-typing", f"semanticTokens/{what} of a document that was typed into (single ASCII characters before a wide character of the line) "
+                                                  f"decodes to {None if da is None else decode(da)[:8]}; a fresh session on the same final text answers {None if db is None else decode(db)[:8]}",
+                                                  {"text": text, "final": cur, "edited_session": da, "fresh_session": db})
+                                break
+                finally:
+                    c2.close()
             finally:
                 c.close()
     finally:
